@@ -173,11 +173,20 @@ theorem sqrt_is_root (a : Fe) (m : Nat) (ha : a.mag m) (hm : m ≤ 8) (r : F) (h
 example : ∃ r : F, r * r = (setInt 4).z := ⟨2, by rw [(FeS.ofInt 4 (by decide)).2]; norm_num⟩
 
 /-- `XYZ.Double` (Model.Group over the generated limb functions) against the reference affine law `Secp.dbl`
-    under (X,Y,Z) ↦ (X/Z², Y/Z³): for EVERY input within the group-layer contract `XYZ.ok` (X ≤ 6, Y ≤ 4, Z ≤ 2
-    magnitudes — non-normalised operands included —, Z ≠ 0 for finite points) the result is within the contract and
-    stands for the double; ∞ ↦ ∞ and points with y = 0 ↦ ∞. -/
+    under (X,Y,Z) ↦ (X/Z², Y/Z³): for EVERY input within the group-layer INPUT contract `XYZ.ok` = everything the Go
+    functions admit (X, Y, Z each of magnitude ≤ 8, the contract of the Mul/Sqr every coordinate is handed to —
+    non-normalised operands such as value + 15·p included —, Z ≠ 0 for finite points) the result is within the contract
+    and stands for the double; ∞ ↦ ∞ and points with y = 0 ↦ ∞. -/
 theorem double_correct (a : XYZ) (h : a.ok) :
     (XYZ.double a).ok ∧ (XYZ.double a).toPoint = Secp.dbl a.toPoint := double_ok a h
+
+/-- `XYZ.Double` over its FULL input contract (Y is only normalised: any magnitude ≤ 32), with the OUTPUT contract:
+    the result is the input with Infinity set, or a finite point with X ≤ 6, Y ≤ 4, Z ≤ 2 (`XYZ.okOut`). -/
+theorem double_correct_full (a : XYZ) (hx : a.x.mag 8) (hy : a.y.mag 32) (hz : a.z.mag 8) (hz0 : a.inf = false → a.z.z ≠ 0) :
+    (XYZ.double a = { a with inf := true } ∨ (XYZ.double a).okOut) ∧ (XYZ.double a).toPoint = Secp.dbl a.toPoint :=
+  double_full a hx hy hz hz0
+
+example : (⟨setInt 1, setInt 2, setInt 1, false⟩ : XYZ).x.mag 8 ∧ (⟨setInt 1, setInt 2, setInt 1, false⟩ : XYZ).y.mag 32 := by decide
 
 /-- `XYZ.Add` (Jacobian + Jacobian) is the reference addition `Secp.add`, for EVERY pair of inputs within the
     contract: ∞ + Q = Q, P + ∞ = P, equal affine x and equal y → `Double`, equal x and different y (P + (−P)) → ∞,
@@ -185,13 +194,34 @@ theorem double_correct (a : XYZ) (h : a.ok) :
 theorem add_correct (a b : XYZ) (ha : a.ok) (hb : b.ok) :
     (XYZ.add a b).ok ∧ (XYZ.add a b).toPoint = Secp.add a.toPoint b.toPoint := add_ok a b ha hb
 
-/-- `XYZ.AddXY` (Jacobian + affine), same statement; affine contract `XY.ok` = both coordinates magnitude ≤ 2. -/
+/-- `XYZ.AddXY` (Jacobian + affine), same statement; affine contract `XY.ok` = both coordinates magnitude ≤ 8
+    (b.X and b.Y are handed to Mul). -/
 theorem addXY_correct (a : XYZ) (b : XY) (ha : a.ok) (hb : b.ok) :
     (XYZ.addXY a b).ok ∧ (XYZ.addXY a b).toPoint = Secp.add a.toPoint b.toPoint := addXY_ok a b ha hb
 
-/-- `XYZ.Neg`, `XY.Neg`, `XYZ.SetXY` -/
-theorem neg_correct (a : XYZ) (ha : a.ok) : (XYZ.neg a).ok ∧ (XYZ.neg a).toPoint = Secp.neg a.toPoint := neg_ok a ha
-theorem negXY_correct (b : XY) (hb : b.ok) : (XY.neg b).ok ∧ (XY.neg b).toPoint = Secp.neg b.toPoint := negXY_ok b hb
+/-- `XYZ.Neg` over the FULL input contract of the Go function: X and Z are only copied (NO hypothesis on them), Y is
+    normalised before `Negate(1)`, so EVERY Y within `Normalize`'s contract is admitted — magnitude ≤ 32, which
+    contains every Y that Mul/Sqr accept (≤ 8) and every Y the library produces (≤ 4): X, Z and the Infinity flag
+    are unchanged, the new Y has magnitude ≤ 2, and the triple stands for the negated point. (A `Negate(Y, m)`
+    without the normalisation is wrong for Y of magnitude > m: this statement is what excludes it.) -/
+theorem neg_correct (a : XYZ) (hy : a.y.mag 32) :
+    (XYZ.neg a).x = a.x ∧ (XYZ.neg a).z = a.z ∧ (XYZ.neg a).inf = a.inf ∧ (XYZ.neg a).y.mag 2 ∧
+    (XYZ.neg a).toPoint = Secp.neg a.toPoint := neg_full a hy
+
+example : (⟨setInt 1, ⟨64 * (2^52 - 1), 0, 0, 0, 64 * (2^48 - 1)⟩, setInt 1, false⟩ : XYZ).y.mag 32 := by decide
+
+/-- corollary in contract form (what the `ECmult` loop uses): `XYZ.ok` is kept -/
+theorem neg_keeps_contract (a : XYZ) (ha : a.ok) : (XYZ.neg a).ok ∧ (XYZ.neg a).toPoint = Secp.neg a.toPoint := neg_ok a ha
+
+/-- `XY.Neg` (affine; `ECmult` applies it to pre_g / pre_g_128 entries) over its FULL input contract: X copied,
+    any Y of magnitude ≤ 32. -/
+theorem negXY_correct (b : XY) (hy : b.y.mag 32) :
+    (XY.neg b).x = b.x ∧ (XY.neg b).inf = b.inf ∧ (XY.neg b).y.mag 2 ∧ (XY.neg b).toPoint = Secp.neg b.toPoint :=
+  negXY_full b hy
+
+theorem negXY_keeps_contract (b : XY) (hb : b.ok) : (XY.neg b).ok ∧ (XY.neg b).toPoint = Secp.neg b.toPoint := negXY_ok b hb
+
+/-- `XYZ.SetXY` -/
 theorem ofXY_correct (b : XY) (hb : b.ok) : (XYZ.ofXY b).ok ∧ (XYZ.ofXY b).toPoint = b.toPoint := ofXY_ok b hb
 
 example : (XYZ.ofXY (precXY 0 0)).ok := (ofXY_ok _ (precXY_ok 0 0 (by decide))).1
@@ -233,7 +263,8 @@ theorem ecmult_no_panic (a : XYZ) (na : Int) (ng : Nat) (hng : ng < 2 ^ 256) : (
   ecmult_isSome a na ng hng
 
 /-- `XYZ.ECmult(a, na, ng)` (the r = na·A + ng·G of signature verification) for EVERY Jacobian input within the
-    contract that lies on the curve (`OnC`; ∞ included), EVERY integer na and every ng < 2^256: no panic, the
+    input contract `XYZ.ok` (X, Y, Z of magnitude ≤ 8: also operands that are not normalised and not produced by the
+    library, for which `precomp`'s pre_a[0] = A and its negation are used as they are) that lies on the curve (`OnC`; ∞ included), EVERY integer na and every ng < 2^256: no panic, the
     result is within the contract and stands for  na1·A + na_lam·A' + ng·G  in the abelian group of curve points,
     where (na1, na_lam) = split_exp(na) and A' is the curve point `mul_lambda` makes of A (x ↦ β·x).
     Followed through: GLV split, four wNAF expansions (`wnaf_sound`), `precomp` tables of odd multiples of A and A',
@@ -258,15 +289,15 @@ example : ∃ r, ecmult { x := setInt 0, y := setInt 0, z := setInt 0, inf := tr
     fun r h => h.elim fun _ h => h.elim fun _ h => ⟨r, h.2.2.1⟩
 
 /-- `XY.SetXO` (decompression, x-only lifting, the core of ParsePubkey 02/03 and DecompressPoint): for EVERY x of
-    magnitude ≤ 2 the result keeps x, y is fully normalised; if x³+7 is a square in F_p the point is on the curve,
+    magnitude ≤ 8 (x goes into Sqr and Mul) the result keeps x, y is fully normalised; if x³+7 is a square in F_p the point is on the curve,
     and (for y ≠ 0, which always holds on secp256k1) y has the requested parity. -/
-theorem setXO_correct (x : Fe) (odd : Bool) (hx : x.mag 2) :
+theorem setXO_correct (x : Fe) (odd : Bool) (hx : x.mag 8) :
     (XY.setXO x odd).x = x ∧ (XY.setXO x odd).inf = false ∧ (XY.setXO x odd).ok ∧ (XY.setXO x odd).y.normd ∧
     (∀ r : F, r * r = x.z ^ 3 + 7 →
       (XY.setXO x odd).y.z * (XY.setXO x odd).y.z = x.z ^ 3 + 7 ∧
       ((XY.setXO x odd).y.z ≠ 0 → (((XY.setXO x odd).y.val % 2 = 1) ↔ odd = true))) := setXO_ok x odd hx
 
-/-- `XY.IsValid` decides the curve equation exactly -/
+/-- `XY.IsValid` decides the curve equation exactly (both coordinates of magnitude ≤ 8) -/
 theorem isValid_correct (a : XY) (ha : a.ok) :
     XY.isValid a = true ↔ (a.inf = false ∧ a.y.z * a.y.z = a.x.z ^ 3 + 7) := isValid_iff a ha
 
@@ -290,6 +321,10 @@ theorem split_exp_bound (a : Int) :
   --   from #E(F_p) = n, which is not proved (explicit hypothesis by design).
   -- OPEN: XY.SetXYZ / GetPublicKey (Field.InvVar = big.Int.ModInverse, modelled by Secp.invMod; byte-level glue
   --   beVal ∘ getB32 ∘ normalize not proved), mulLambda.
+  -- OPEN (input contract wider than the theorem): `XYZ.AddXY` only normalises a.Y, so the Go code also admits a.Y of
+  --   magnitude 9..32 there; `addXY_correct` is stated for a.Y ≤ 8 (then the result, which may be a copy of `a`,
+  --   is again an admissible operand). Neg and Double are stated for Y ≤ 32 (`neg_correct`, `double_correct_full`);
+  --   Add and ECmult hand every coordinate to Mul, so ≤ 8 is their full contract.
   -- NOT COVERED: field_10x26.go (not compiled on 64-bit platforms).
 -/
 
